@@ -33,7 +33,7 @@ def attribute(why):
 class Knobs:
     def __init__(self, fail_rate=0, notexec_rate=0, undefined_rate=10, delays=False, max_targets=5, slow_deps=True,
                  redirect_rate=0, multi_fail=False, custom_dirs=False, checkpoint=False, chmod=False, listener=False,
-                 sabotage=False, slash=False):
+                 sabotage=False, slash=False, force_mode=None, force_fou=None, dense=False):
         self.fail_rate = fail_rate          # percent of tasks that exit non-zero
         self.notexec_rate = notexec_rate    # percent of command files without x bit
         self.undefined_rate = undefined_rate
@@ -48,12 +48,16 @@ class Knobs:
         self.listener = listener            # a `log tail` listener is attached and SIGKILLed during the run
         self.sabotage = sabotage            # a task of the first group wipes the run's log directories ("clean" step)
         self.slash = slash                  # one target path is written with a trailing slash
+        self.force_mode = force_mode        # 0 changed/all targets, 1 -t, 2 -t --deps
+        self.force_fou = force_fou          # --fail-on-undefined on / off
+        self.dense = dense                  # at least 3 targets, every second possible `uses` edge present
 
 
 def build(seed, knobs):
     rng = scen.Rng(seed)
     sc = rungen.RunScenario(rng, max_targets=knobs.max_targets, with_argmaps=False, custom_dirs=knobs.custom_dirs,
-                            undefined_pct=knobs.undefined_rate, slash=knobs.slash)
+                            undefined_pct=knobs.undefined_rate, slash=knobs.slash, force_mode=knobs.force_mode,
+                            force_fou=knobs.force_fou, dense=knobs.dense)
     sc.args = []
     if knobs.chmod or knobs.sabotage:
         sc.named, sc.deps = [], False     # every target takes part, so the acting task does too
